@@ -47,6 +47,12 @@ CHECKS.update({
  "C14": ("exploration","race detector + frame-validating proxy over all-writers stress repetitions and targeted windows",
    "Stress repetitions with every writer class active on one connection (requests/responses from 10 B to 3x the write buffer, both cancel paths, channel registrations/values/closes, 1-3 ms pings on both sides, reverse calls, periodic faults with reconnect incl. outages longer than the timeout, client close), one writer class's critical section widened per repetition, plus windows W1, W4 and W10; the proxy validates every frame in both directions (mask discipline, fragmentation, control frames, each data message exactly one JSON-RPC object); race-detector reports with a library frame are violations (deduplicated by top library frame pair); a gorilla concurrent-write panic kills the child and is attributed.",
    "The race detector only sees executed pairs; logging is silenced because its pools/mutexes add happens-before edges that hide races.","2/C14"),
+ "C01": ("exploration","type-directed generated calls + independent JSON round-trip reference model, instrumented catalogue handlers",
+   "A catalogue of ~45 method signatures (0-6 params, with/without context, all return shapes, RawParams, custom encoder/decoder pair) is called with seeded type-directed values incl. boundary pools over http, ws and custom transports under the four built-in formatters and a custom one (30 000 calls quick, 600 000 thorough); handlers record the canonical JSON and dynamic type of every received argument and return generated values/errors; the oracle RT(x)=Unmarshal(Marshal(x)) into the declared type is independent of library code.",
+   "Finite catalogue (no 7+ parameter signatures); NaN/Inf and invalid UTF-8 are outside the property.","2/C01"),
+ "C09": ("exploration","grammar-based and mutated request bodies + reference model of the JSON-RPC 2.0 reply rules, handler counters",
+   "Bodies from a JSON-RPC grammar (single/batch/empty/padded; ten element kinds; ids of every JSON type incl. fractions and exponent spellings; params absent/null/[]/object), byte-level mutations, an exhaustive sub-run over all batches of length <=3 (quick) / <=4 (thorough) of six element kinds, and the same element stream as ws frames; strict structural checks (exactly one JSON value, jsonrpc 2.0, id present, result XOR error), id echo by JSON type and value, the four named codes, 'handler ran iff valid', one response per valid-id ws frame and none for notifications. The model is deliberately weaker than the library wherever the statement is silent.",
+   "Grammar-built requests use canonical member names once; mutated bodies that stay valid JSON are judged structurally only; HTTP status is recorded, not judged.","2/C09"),
 })
 NA={}
 def main():
